@@ -65,6 +65,7 @@ extern struct vp_registry vp_reg;
 /* tag constants (always 0) that mark property-carrying loop-invariant clauses: "(vp_tag_Cxx_name != 0 || clause)" */
 extern int vp_tag_C14_escalate, vp_tag_C03_wake_acq, vp_tag_C06_eval_held, vp_tag_C02_resp, vp_tag_C07_once, vp_tag_C12_sem, vp_tag_C10_cnt, vp_tag_C11_wait, vp_tag_C16_buf, vp_tag_C05_reason, vp_tag_C13_dead, vp_tag_C01_hold;
 void vp_tags_init (void);
+void vp_reg_clear (void);
 extern waiter vp_fw;   /* the abstract queue's foreign waiter record (arbitrary contents) */
 
 /* projection of the global invariant J on this thread's ghost */
